@@ -8,9 +8,13 @@ C06 for the FGA instance (`luRule`, `luSys`, `listUsers` of `Model/ListUsers.lea
   * `lu_filter_fga`      hence every user returned by any schedule satisfies `EntryOK`;
   * `luSys_stage1`       worlds without a wildcard tuple of the filter type (and without empty intersections)
                          are in the wildcard-free stage;
-  * `lu_exact1_fga`      so `lu_exact1` applies to them.
+  * `lu_exact1_fga`      so `lu_exact1` applies to them;
+  * `luSys_stage2`, `lu_exact2_fga`   worlds with wildcards: the hypotheses of the wildcard stage are string
+                         facts about `tuple.IsTypedWildcard` / `tuple.TypedPublicWildcard` on the keys that occur
+                         (C29's domain) plus "no empty intersection".
 -/
 import OpenFGAVerif.Proofs.ListUsersStage1
+import OpenFGAVerif.Proofs.ListUsersStage2
 import OpenFGAVerif.Proofs.ListUsersFilter
 import OpenFGAVerif.Proofs.RefRules
 
@@ -263,5 +267,125 @@ theorem lu_exact1_fga (w : World) (f : Filter) (hw : WildFree w f) (limit : Nat)
     (u ∈ a.users → D (specSys (luSys w f) u cw) I [] root) ∧
     (P (specSys (luSys w f) u cw) I [] root → u ∈ a.users) :=
   lu_exact1 (luSys w f) limit u cw I (luSys_stage1 w f hw) hc root a h he hn
+
+/-! ### the wildcard stage -/
+
+/-- hypotheses of the wildcard stage for a world and a filter (string facts about the keys that occur):
+  `wk`       `type:*` is a typed wildcard;
+  `tuples`   a directly assigned non-userset user of the filter type that is a typed wildcard is `type:*`;
+  `selfKey`  `object#relation` keys are not typed wildcards;
+  `inter`    no empty intersection in the model. -/
+structure WildOK (w : World) (f : Filter) : Prop where
+  wk : isTypedWildcard (f.typ ++ ":*") = true
+  tuples : ∀ t ∈ w.all, isUserset t.user = false → userType t.user = f.typ →
+    isTypedWildcard t.user = true → t.user = f.typ ++ ":*"
+  selfKey : ∀ n : Node, typeOf n.1 = f.typ → n.2 = f.rel → isTypedWildcard (usersetKey n) = false
+  inter : ∀ typ rel rd, w.model.findRel typ rel = some rd → InterNonempty rd.rewrite
+
+theorem stage2_sendNil {sys : LSys Node String} : Stage2E sys (.send []) :=
+  .send _ (fun k hk => by cases hk)
+
+theorem directL_stage2 (w : World) (f : Filter) (hw : WildOK w f) (o r : String) :
+    Stage2E (luSys w f) (directL w f o r) := by
+  unfold directL
+  refine .bag _ _ ?_
+  intro e he
+  obtain ⟨⟨t, c⟩, htc, rfl⟩ := List.mem_map.mp he
+  cases c with
+  | err => exact .fail
+  | ff => exact stage2_sendNil
+  | tt =>
+    simp only
+    by_cases hu : isUserset t.user = true
+    · rw [if_pos hu]; exact .node _
+    · rw [if_neg hu]
+      by_cases ht : userType t.user = f.typ
+      · rw [if_pos ht]
+        have hs : Stage2E (luSys w f) (.send [t.user]) :=
+          .send _ (fun k hk hwild => by
+            rw [List.mem_singleton.mp hk] at hwild ⊢
+            exact hw.tuples t (mem_readTuples htc) (by simpa using hu) ht hwild)
+        by_cases hr : f.rel = ""
+        · rw [if_pos hr]; exact hs
+        · rw [if_neg hr]
+          refine .bag _ _ ?_
+          intro e' he'
+          simp only [List.mem_cons, List.not_mem_nil, or_false] at he'
+          rcases he' with rfl | rfl
+          · exact hs
+          · exact .note _
+      · rw [if_neg ht]; exact stage2_sendNil
+
+theorem ttuL_stage2 (w : World) (f : Filter) (o ts cr : String) : Stage2E (luSys w f) (ttuL w o ts cr) := by
+  unfold ttuL
+  refine .bag _ _ ?_
+  intro e he
+  obtain ⟨⟨t, c⟩, _, rfl⟩ := List.mem_map.mp he
+  cases c with
+  | err => exact .fail
+  | ff => exact stage2_sendNil
+  | tt => exact .node _
+
+theorem rewriteL_stage2 (w : World) (f : Filter) (hw : WildOK w f) (o r : String) :
+    ∀ rw, InterNonempty rw → Stage2E (luSys w f) (rewriteL w f o r rw) := by
+  apply RefRules.Rewrite.ind
+  · intro _; simp only [rewriteL]; exact directL_stage2 w f hw o r
+  · intro r' _; simp only [rewriteL]; exact .node _
+  · intro ts cr _; simp only [rewriteL]; exact ttuL_stage2 w f o ts cr
+  · intro cs ih hn
+    cases hn with
+    | union hcs =>
+      simp only [rewriteL]
+      refine .union _ ?_
+      intro e he
+      obtain ⟨c, hc, rfl⟩ := List.mem_map.mp he
+      exact ih c hc (hcs c hc)
+  · intro cs ih hn
+    cases hn with
+    | inter hne hcs =>
+      simp only [rewriteL]
+      refine .inter _ (by simpa using hne) ?_
+      intro e he
+      obtain ⟨c, hc, rfl⟩ := List.mem_map.mp he
+      exact ih c hc (hcs c hc)
+  · intro b s ihb ihs hn
+    cases hn with
+    | diff hb hs =>
+      simp only [rewriteL]
+      exact .diff _ _ (ihb hb) (ihs hs)
+
+theorem luSys_stage2 (w : World) (f : Filter) (hw : WildOK w f) : Stage2 (luSys w f) := by
+  refine ⟨hw.wk, ?_⟩
+  intro n
+  obtain ⟨o, r⟩ := n
+  show Stage2E (luSys w f) (luRule w f (o, r))
+  unfold luRule
+  refine .bag _ _ ?_
+  intro e he
+  simp only [List.mem_cons, List.not_mem_nil, or_false] at he
+  rcases he with rfl | rfl
+  · by_cases hc : (decide (typeOf o = f.typ) && decide (r = f.rel)) = true
+    · rw [if_pos hc]
+      simp only [Bool.and_eq_true, decide_eq_true_eq] at hc
+      refine .send _ (fun k hk hwild => ?_)
+      rw [List.mem_singleton.mp hk] at hwild
+      have := hw.selfKey (o, r) hc.1 hc.2
+      simp only [luSys] at hwild
+      rw [this] at hwild; cases hwild
+    · rw [if_neg hc]; exact stage2_sendNil
+  · cases hfr : w.model.findRel (typeOf o) r with
+    | none => exact stage2_sendNil
+    | some rd => exact rewriteL_stage2 w f hw o r rd.rewrite (hw.inter _ _ rd hfr)
+
+/-- **C06 with wildcards for the FGA rules, every schedule**: an answer without error and without ghost note
+returns a concrete subject `u` of the filter type (or the wildcard subject) only if it definitely holds the
+relation, and every such subject that possibly holds it is returned, explicitly or through the returned
+wildcard `type:*`. -/
+theorem lu_exact2_fga (w : World) (f : Filter) (hw : WildOK w f) (limit : Nat) (u : String)
+    (I : Interp Node) (hc : Coherent (specSys (luSys w f) u true) I) (root : Node) (a : Answer String)
+    (h : ListUsersRel (luSys w f) limit root a) (he : a.errs = []) (hn : a.notes = []) :
+    (u ∈ a.users → D (specSys (luSys w f) u true) I [] root) ∧
+    (P (specSys (luSys w f) u true) I [] root → u ∈ a.users ∨ (f.typ ++ ":*") ∈ a.users) :=
+  lu_exact2 (luSys w f) limit u I (luSys_stage2 w f hw) hc root a h he hn
 
 end OpenFGAVerif.ListUsers
